@@ -286,15 +286,16 @@ PtrEntries(ctx, e, raw) ==
     IN <<lead, cie, fde>>
 PtrInit == c = [stage |-> 0]
 PtrNext ==
-    /\ c.stage = 0
-    /\ \E e \in 0..255 : \E ctx \in PtrCtx :
-         IF IsValidEncoding(e) /\ e # PeOmit /\ PeApp(e) # PeAligned
-         THEN \E asz \in {2, 4, 8} : \E bi \in 1..4 : \E raw \in RawVals(PeFormat(e)) : \E le \in BOOLEAN :
-                /\ (~le => bi = 3 /\ asz = 4)
-                /\ (asz = 2 => bi \in {3, 4})
-                /\ c' = [stage |-> 1, e |-> e, ctx |-> ctx, asz |-> asz, bi |-> bi, raw |-> raw, le |-> le]
-         ELSE c' = [stage |-> 1, e |-> e, ctx |-> ctx, asz |-> 8, bi |-> 3, raw |-> B8(1), le |-> TRUE]
-PtrInv == c.stage = 1 =>
+    \/ /\ c.stage = 0 /\ \E e \in 0..255 : c' = [stage |-> 1, e |-> e]      \* fan out over the workers
+    \/ /\ c.stage = 1
+       /\ \E ctx \in PtrCtx :
+            IF IsValidEncoding(c.e) /\ c.e # PeOmit /\ PeApp(c.e) # PeAligned
+            THEN \E asz \in {2, 4, 8} : \E bi \in 1..4 : \E raw \in RawVals(PeFormat(c.e)) : \E le \in BOOLEAN :
+                   /\ (~le => bi = 3 /\ asz = 4)
+                   /\ (asz = 2 => bi \in {3, 4})
+                   /\ c' = [stage |-> 2, e |-> c.e, ctx |-> ctx, asz |-> asz, bi |-> bi, raw |-> raw, le |-> le]
+            ELSE c' = [stage |-> 2, e |-> c.e, ctx |-> ctx, asz |-> 8, bi |-> 3, raw |-> B8(1), le |-> TRUE]
+PtrInv == c.stage = 2 =>
     Emit(Case("ptr", "eh", c.asz, c.le, PtrEntries(c.ctx, c.e, c.raw), BaseSets(c.asz)[c.bi], NoBases, NoHdr, {}, FALSE)
          @@ [e |-> c.e, ctx |-> c.ctx, soft |-> c.e = PeOmit \/ (IsValidEncoding(c.e) /\ PeApp(c.e) = PeAligned)])
 
@@ -341,12 +342,13 @@ HdrFor(penc, cenc, tenc, HB, offs) ==
         tenc |-> tenc, rows |-> rows]
 HdrInit == c = [stage |-> 0]
 HdrNext ==
-    /\ c.stage = 0
-    /\ \E pos \in {"p", "c", "t", "v"} : \E e \in 0..255 : \E bi \in 1..4 :
-         /\ (pos = "v" => e \in {0, 1, 2} /\ bi = 2)
-         /\ ((~IsValidEncoding(e) \/ pos = "c") => bi = 2)
-         /\ c' = [stage |-> 1, pos |-> pos, e |-> e, bi |-> bi]
-HdrInv == c.stage = 1 =>
+    \/ /\ c.stage = 0 /\ \E e \in 0..255 : c' = [stage |-> 1, e |-> e]      \* fan out over the workers
+    \/ /\ c.stage = 1
+       /\ \E pos \in {"p", "c", "t", "v"} : \E bi \in 1..4 :
+            /\ (pos = "v" => c.e \in {0, 1, 2} /\ bi = 2)
+            /\ ((~IsValidEncoding(c.e) \/ pos = "c") => bi = 2)
+            /\ c' = [stage |-> 2, pos |-> pos, e |-> c.e, bi |-> bi]
+HdrInv == c.stage = 2 =>
     LET HB   == HdrBaseSets[c.bi]
         EB   == Bases(B8(20480), None, None)
         es   == HdrEntries
